@@ -265,6 +265,13 @@ impl Header {
         self.to_raw().map(|raw| CRC32C.checksum(&raw))
     }
 
+    /// Used by tools, which write record to the new position in file
+    pub(crate) fn with_blob_offset(mut self, blob_offset: u64) -> bincode::Result<Self> {
+        self.blob_offset = blob_offset;
+        self.update_checksum()?;
+        Ok(self)
+    }
+
     /// Used for migration
     pub(crate) fn with_reversed_key_bytes(mut self) -> bincode::Result<Self> {
         self.key.reverse();
